@@ -191,7 +191,7 @@ def run_replay(path):
         import nxrun
         work = os.path.join(WORK, 'replay-%d' % os.getpid())
         try:
-            kxrun.prepare(repo, work)
+            kxrun.prepare(repo, work, shim=False)
             r = nxrun.run_tests(work, rec['crate'], [])
             hit = [v for k, v in r['tests'].items() if k.endswith('::' + rec['test'])]
             if hit and hit[0]['status'] == 'FAILED':
